@@ -4,13 +4,16 @@
    ANY mix of forward/reverse traces and with arbitrary tags, the returned value
    carries exactly the number the plain program returns on the plain inputs
    (and therefore takes the same branches); the same for a single primitive
-   call.  NOT PROVED HERE (tied by the correspondence run only): that values
-   handed back by the differential operators themselves contain no boxes, and
-   the re-implemented NumPy wrappers (concatenate, vstack, ...), which are
-   compared with NumPy directly by ./check C06. *)
+   call.  ALSO PROVED (C06_operators_return_specified_values): the value a
+   closed program hands back - through any nesting of differential operators -
+   is the number the tag-free tower semantics assigns to it (nested_correct).
+   NOT PROVED HERE (tied by the correspondence run only): that the value handed
+   back is an unboxed object at top level, and the re-implemented NumPy wrappers
+   (concatenate, vstack, ...), which are compared with NumPy directly by
+   ./check C06. *)
 From Coq Require Import List ZArith.
 Import ListNotations.
-From AG Require Import Toposort Tagged Tower Run08 TaggedProof.
+From AG Require Import Toposort Tagged Tower Run08 TaggedProof TowerAlg FwdCorrect TowerRing MixInterp MixStep MixBackward MixEval.
 
 Theorem C06_primitive_call_transparent :
   forall (K : Type) kadd ksub kmul kopp kF ksign fuel p args s v s',
@@ -27,6 +30,17 @@ Theorem C06_program_transparent_at_any_depth :
     = Some (strip K v).
 Proof. exact eval_transparent. Qed.
 Print Assumptions C06_program_transparent_at_any_depth.
+
+Theorem C06_operators_return_specified_values :
+  forall fuel e (s : state Z),
+    prims_ok e = true -> (-1 <= top Z s)%Z -> calm Z s -> store Z s = [] ->
+    match fst (zeval_sup Mono fuel [] e s) with
+    | Val v => eval_spec e 0 [] = Some (strip Z v)
+    | Err _ => eval_spec e 0 [] = None
+    | OutOfFuel => True
+    end.
+Proof. exact nested_correct. Qed.
+Print Assumptions C06_operators_return_specified_values.
 
 (* non-vacuity: x*x + F0(x) on an input boxed twice (reverse inside forward) *)
 Example C06_example :
